@@ -186,6 +186,9 @@ def _allowed(ip, frame, spec, node=None):
         if loc is None:
             continue
         holder, attr = loc
+        if isinstance(holder, SymObj):
+            allowed.add((('fieldat', holder.cls.name, attr), holder.ref))
+            continue
         allowed.add((id(holder), attr))
         cur = holder.attrs.get(attr) if isinstance(holder, Obj) else None
         if isinstance(cur, (PyList, PyDict, PySet, SymSeq, SymMap)):
@@ -197,7 +200,7 @@ def _allowed(ip, frame, spec, node=None):
     return allowed
 
 
-def end_of_iteration(ip, node, frame, spec, extra, head_snap, variant0):
+def end_of_iteration(ip, node, frame, spec, extra, head_snap, variant0, allowed0=frozenset()):
     if spec.ghost_post is not None:
         spec.ghost_post(ip, frame, _env(ip, frame, extra))
     check_inv(ip, spec, frame, extra, 'preserved', node)
@@ -207,7 +210,8 @@ def end_of_iteration(ip, node, frame, spec, extra, head_snap, variant0):
                       z3.And(ops.term(v1, 'int') < variant0, variant0 >= 0))
     # loop frame: everything the body changed must be in the declared havoc set
     fd = FrameDiff(ip, head_snap)
-    for desc, cond in fd.diffs(_allowed(ip, frame, spec, node)):
+    # (the frame paths are resolved at the loop head and at the end of the iteration: a declared location may be re-bound)
+    for desc, cond in fd.diffs(set(allowed0) | _allowed(ip, frame, spec, node)):
         ip.ctx.oblige('%s/loop@%s:frame/%s' % (ip.verifying_key, spec.label or node.lineno_label, desc),
                       z3.BoolVal(False) if cond is False else cond,
                       detail='location written by the loop body but not in the declared havoc set')
@@ -229,6 +233,7 @@ def while_with_invariant(ip, node, frame, spec):
     havoc(ip, node, frame, spec)
     assume_inv(ip, spec, frame, extra)
     head_snap = Snapshot(ip, _roots(frame))
+    allowed0 = _allowed(ip, frame, spec, node)
     if ip.branch_on(ip.eval(node.test, frame)):
         variant0 = None
         if spec.variant is not None:
@@ -241,7 +246,7 @@ def while_with_invariant(ip, node, frame, spec):
             return
         except I._Continue:
             pass
-        end_of_iteration(ip, node, frame, spec, extra, head_snap, variant0)
+        end_of_iteration(ip, node, frame, spec, extra, head_snap, variant0, allowed0)
     else:
         ip.exec_block(node.orelse, frame)
 
@@ -250,6 +255,10 @@ def for_with_invariant(ip, node, frame, spec, it):
     _label(node)
     ctx = ip.ctx
     # the iterated sequence is evaluated once, before the loop
+    if isinstance(it, lib.DictView) and isinstance(it.d, SymMap):
+        it = lib.dictview_list(ip, it)      # iteration over a dict view: the enumeration contract of list(view)
+    elif isinstance(it, SymMap):
+        it = lib.symmap_keys(ip, it)
     if isinstance(it, lib.SymRange):
         lo, hi = ops.term(it.lo, 'int'), ops.term(it.hi, 'int')
         n = z3.If(hi > lo, hi - lo, z3.IntVal(0))
@@ -281,12 +290,17 @@ def for_with_invariant(ip, node, frame, spec, it):
     if spec.ghost_init is not None:
         spec.ghost_init(ip, frame, _env(ip, frame, extra))
     check_inv(ip, spec, frame, extra, 'init', node)
+    if spec.skip_when_empty and not ctx.branch(ops.sbool(n > 0)):
+        # a loop over an empty sequence does nothing at all (no havoc): decided by a fork instead of the cut
+        ip.exec_block(node.orelse, frame)
+        return
     havoc(ip, node, frame, spec)
     i = ctx.fresh('_i', IntSort)
     ctx.assume(z3.And(i >= 0, i <= n))
     extra['_i'] = Sym(i, 'int')
     assume_inv(ip, spec, frame, extra)
     head_snap = Snapshot(ip, _roots(frame))
+    allowed0 = _allowed(ip, frame, spec, node)
     if ctx.branch(ops.sbool(i < n)):
         variant0 = None
         if spec.ghost_pre is not None:
@@ -300,6 +314,6 @@ def for_with_invariant(ip, node, frame, spec, it):
         except I._Continue:
             pass
         extra['_i'] = Sym(i + 1, 'int')
-        end_of_iteration(ip, node, frame, spec, extra, head_snap, None)
+        end_of_iteration(ip, node, frame, spec, extra, head_snap, None, allowed0)
     else:
         ip.exec_block(node.orelse, frame)
